@@ -297,8 +297,8 @@ def always_returns(stmt):
     return False
 
 
-def check_whole_name_match(chk, prog, u):
-    """N4: a long option is selected by its whole name.  Every bounded comparison strn(case)cmp(NAME, WORD, n) of a table
+def check_whole_name_match(chk, prog, u, field="long_opt", rule="N4", only=None, story=None):
+    """N4 (options) / S7 (built-in table of the config parser): a long option is selected by its whole name.  Every bounded comparison strn(case)cmp(NAME, WORD, n) of a table
     entry's long name with the word decides a match only together with the end of the other string at n:
       n = strlen(NAME)            -> WORD[n] is tested to be '=' or the terminator (the name part of the word ends there), or
       n measured on the WORD      -> NAME[n] is tested to be the terminator (the table name ends there too);
@@ -315,10 +315,10 @@ def check_whole_name_match(chk, prog, u):
             if g is None:
                 continue
             for j, a in enumerate(c["ch"][1:]):
-                if j < len(g.params) and any(y.get("k") == "member" and y.get("n") == "long_opt" for y in walk(a)):
+                if j < len(g.params) and any(y.get("k") == "member" and y.get("n") == field for y in walk(a)):
                     name_params.add(g.params[j]["d"])
     for f in u.functions.values():
-        if f.body is None:
+        if f.body is None or (only is not None and f.name not in only):
             continue
         defs = {}
         for x in walk(f.body):
@@ -332,7 +332,48 @@ def check_whole_name_match(chk, prog, u):
                         defs.setdefault(dcl["d"], []).append(dcl["init"])
 
         def is_name(e):
-            return any((y.get("k") == "member" and y.get("n") == "long_opt") or (y.get("k") == "ref" and y.get("d") in name_params) for y in walk(e))
+            return any((y.get("k") == "member" and y.get("n") == field) or (y.get("k") == "ref" and y.get("d") in name_params) for y in walk(e))
+
+        reach_cache = {}
+
+        def reaching(d, at_id):
+            """the right-hand sides of the definitions of local d that reach node at_id (None for ++ / compound updates)"""
+            if f.cfg is None:
+                return defs.get(d, [])
+            if d not in reach_cache:
+                at = {}
+
+                def tr(state, x, blk):
+                    k_ = x.get("k")
+                    if k_ == "assign" and (X.strip(x["ch"][0]) or {}).get("d") == d:
+                        return frozenset({x["i"]})
+                    if k_ == "un" and x.get("op") in ("++", "--") and (X.strip(x["ch"][0]) or {}).get("d") == d:
+                        return frozenset({x["i"]})
+                    if k_ == "decl" and any(dc["d"] == d for dc in x.get("decls", ())):
+                        return frozenset({x["i"]})
+                    return state
+
+                def vis(state, x, blk):
+                    at[x["i"]] = state
+                from .. import flow as _flow
+                _flow.forward(nullness.prepared_cfg(f, NORETURN), frozenset(), tr, join=lambda a, b: a | b, visit=vis)
+                reach_cache[d] = at
+            ids = reach_cache[d].get(at_id)
+            if ids is None:
+                return defs.get(d, [])
+            out_ = []
+            for i_ in ids:
+                nd_ = f.nodes.get(i_)
+                if nd_ is None:
+                    out_.append(None)
+                elif nd_.get("k") == "assign" and nd_.get("op") == "=":
+                    out_.append(nd_["ch"][1])
+                elif nd_.get("k") == "decl":
+                    out_ += [dc.get("init") for dc in nd_.get("decls", ()) if dc["d"] == d]
+                else:
+                    out_.append(None)
+            return out_
+        cur_call = [None]
 
         def length_of(e, depth=0):
             """'name' / 'word' if e is a length measured on the table name / on something else, else None"""
@@ -340,7 +381,9 @@ def check_whole_name_match(chk, prog, u):
             if e is None or depth > 3:
                 return None
             if e.get("k") == "ref" and e.get("rk") == "local":
-                ds = defs.get(e["d"], [])
+                ds = reaching(e["d"], cur_call[0]) if (depth == 0 and cur_call[0] is not None) else defs.get(e["d"], [])
+                if any(d_ is None for d_ in ds):
+                    return None
                 kinds = {length_of(d_, depth + 1) for d_ in ds}
                 return kinds.pop() if len(kinds) == 1 else None
             if e.get("k") == "call" and X.callee_name(e) in ("strlen", "__builtin_strlen") and e["ch"][1:]:
@@ -362,6 +405,7 @@ def check_whole_name_match(chk, prog, u):
                 continue
             name_e, word_e = (a1, a2) if is_name(a1) else (a2, a1)
             n += 1
+            cur_call[0] = c["i"]
             kind = length_of(an)
             # tests of the byte at index n of either string anywhere in the enclosing condition / function
             ends_word = ends_name = False
@@ -372,12 +416,12 @@ def check_whole_name_match(chk, prog, u):
                     elif canon(f, x["ch"][0]) == canon(f, word_e):
                         ends_word = True
             ok = (kind == "name" and ends_word) or (kind == "word" and ends_name)
-            chk.ob("N4", f.name, "whole-name-match:" + canon(f, c)[:40], ok, loc=f.loc(c),
-                   detail="%s matches a long option with %s bounded by %s, and never tests that %s ends at that length: a word selects "
-                          "an option whose name merely begins with it (or that it merely begins with) - `--verb` sets --verbose, an exact "
-                          "`--scrollbar` is taken for --scrollbar-type" % (
+            chk.ob(rule, f.name, "whole-name-match:" + canon(f, c)[:40], ok, loc=f.loc(c),
+                   detail="%s matches a table name with %s bounded by %s, and never tests that %s ends at that length: %s" % (
                               f.name, cn, "the table name's length" if kind == "name" else ("the word's length" if kind == "word" else "a length of unknown origin"),
-                              "the word's name part" if kind == "name" else "the table name"),
+                              "the word's name part" if kind == "name" else "the table name",
+                              story or "a word selects an option whose name merely begins with it (or that it merely begins with) - `--verb` sets "
+                                       "--verbose, an exact `--scrollbar` is taken for --scrollbar-type"),
                    proof="bounded by %s and the other string is tested to end there" % ("strlen(name)" if kind == "name" else "the word's name length"))
     return n
 
